@@ -34,19 +34,19 @@ def run(ctx):
     ]
     match_table(ctx, "C06-R1", f, walk(f), rows, "From<quinn::ReadError>")
     f = A.find1(r"^wtransport::driver::streams::QuicSendStream::stopped::\{closure#0\}$")
-    S = r"await\(SendStream::stopped\(&\*self\.0\)\)"
+    S = r"await\(SendStream::stopped\(self\.0\)\)"
     rows = [
-        {"name": "Ok(None)->Closed", "atoms": [r"^\(%s as Ok\)\.0 is None$" % S], "leaf": r"^return StreamWriteError::Closed$"},
-        {"name": "Ok(Some(c))->Stopped(q2w(c))", "atoms": [r"^\(%s as Ok\)\.0 is Some$" % S], "leaf": r"^return StreamWriteError::Stopped\(varint_q2w\(\(\(%s as Ok\)\.0 as Some\)\.0\)\)$" % S},
+        {"name": "Ok(None)->Closed", "atoms": [r"^ok\(%s\) fails$" % S], "leaf": r"^return StreamWriteError::Closed$"},
+        {"name": "Ok(Some(c))->Stopped(q2w(c))", "atoms": [r"^ok\(%s\) ok$" % S], "leaf": r"^return StreamWriteError::Stopped\(varint_q2w\(ok\(ok\(%s\)\)\)\)$" % S},
         {"name": "ConnectionLost->NotConnected", "atoms": [r" is ConnectionLost$"], "leaf": r"^return StreamWriteError::NotConnected$"},
         {"name": "ZeroRttRejected->QuicProto", "atoms": [r" is ZeroRttRejected$"], "leaf": r"^return StreamWriteError::QuicProto$"},
     ]
     match_table(ctx, "C06-R1", f, walk(f), rows, "QuicSendStream::stopped")
     f = A.find1(r"^wtransport::driver::streams::QuicSendStream::finish::\{closure#0\}$")
-    ST = r"await\(QuicSendStream::stopped\(&\*self\)\)"
+    ST = r"await\(QuicSendStream::stopped\(self\)\)"
     rows = [
-        {"name": "Closed->Ok", "atoms": [r"^%s is Closed$" % ST], "events": [r"^SendStream::finish\(&\*self\.0\)$"], "leaf": r"^return Result::Ok\(\(\)\)$"},
-        {"name": "otherwise->Err(that)", "atoms": [r"^%s isnot Closed$" % ST], "events": [r"^SendStream::finish\(&\*self\.0\)$"], "leaf": r"^return Result::Err\(%s\)$" % ST},
+        {"name": "Closed->Ok", "atoms": [r"^%s is Closed$" % ST], "events": [r"^SendStream::finish\(self\.0\)$"], "leaf": r"^return Result::Ok\(\(\)\)$"},
+        {"name": "otherwise->Err(that)", "atoms": [r"^%s isnot Closed$" % ST], "events": [r"^SendStream::finish\(self\.0\)$"], "leaf": r"^return Result::Err\(%s\)$" % ST},
     ]
     ps = walk(f)
     match_table(ctx, "C06-R1", f, ps, rows, "QuicSendStream::finish")
@@ -57,11 +57,11 @@ def run(ctx):
         i2 = [i for i, e in enumerate(ev) if e.startswith("await QuicSendStream::stopped(")]
         ctx.check("C06-R1", "finish before stopped|%s" % path_sig(p)[1][:30], bool(i1) and bool(i2) and i1[0] < i2[0], "finish(): quinn finish() is not issued before awaiting stopped()", where(f))
     f = A.find1(r"^wtransport::driver::streams::QuicRecvStream::read::\{closure#0\}$")
-    R = r"await\(RecvStream::read\(&\*self\.0,&\*buf\)\)"
+    R = r"await\(RecvStream::read\(self\.0,buf\)\)"
     rows = [
-        {"name": "Some(n)->Some(n)", "atoms": [r"^ok\(%s\) is Some$" % R], "leaf": r"^return Result::Ok\(Option::Some\(\(ok\(%s\) as Some\)\.0\)\)$" % R},
-        {"name": "None->None", "atoms": [r"^ok\(%s\) is None$" % R], "leaf": r"^return Result::Ok\(Option::None\)$"},
-        {"name": "error->From<ReadError>", "atoms": [r"^%s fails$" % R], "leaf": r"^return Err\(from\(err\(%s\)\)\)$" % R},
+        {"name": "Some(n)->Some(n)", "atoms": [r"^ok\(%s\) ok$" % R], "leaf": r"^return Result::Ok\(Option::Some\(ok\(ok\(%s\)\)\)\)$" % R},
+        {"name": "None->None", "atoms": [r"^ok\(%s\) fails$" % R], "leaf": r"^return Result::Ok\(Option::None\)$"},
+        {"name": "error->From<ReadError>", "atoms": [r"^%s fails$" % R], "leaf": r"^return Result::Err\(err\(%s\)\)$" % R},
     ]
     match_table(ctx, "C06-R1", f, walk(f), rows, "QuicRecvStream::read")
     f = A.find1(r"^wtransport::driver::streams::QuicRecvStream::read_exact::\{closure#0\}::\{closure#0\}$")
@@ -73,8 +73,8 @@ def run(ctx):
     for nm in ("write", "write_all"):
         f = A.find1(r"^wtransport::driver::streams::QuicSendStream::%s::\{closure#0\}$" % nm)
         sg = sorted(path_sig(p)[1] for p in nonpanic(walk(f)))
-        W = "await(SendStream::%s(&*self.0,&*buf))" % nm
-        want = sorted(["return Err(from(err(%s)))" % W, ("return Result::Ok(ok(%s))" % W) if nm == "write" else "return Result::Ok(())"])
+        W = "await(SendStream::%s(self.0,buf))" % nm
+        want = sorted(["return Result::Err(err(%s))" % W, ("return Result::Ok(ok(%s))" % W) if nm == "write" else "return Result::Ok(())"])
         ctx.check("C06-R1", "QuicSendStream::%s" % nm, sg == want, "QuicSendStream::%s does not pass buf/count/error through unchanged: %s" % (nm, sg), where(f))
 
     ctx.rule("C06-R2", "code identity: varint_q2w / varint_w2q / streamid_q2w pass into_inner() unchanged; both VarInt::MAX == 2^62-1")
@@ -118,21 +118,21 @@ def run(ctx):
     ctx.rule("C06-R3", "delegation: reset(c) -> quinn reset(w2q(c)); stop(c) -> quinn stop(w2q(c)); public wrappers pass the code unchanged")
     f = A.fn(D + "QuicSendStream::reset")
     sg = [path_sig(p)[1] for p in nonpanic(walk(f))]
-    ctx.check("C06-R3", "QuicSendStream::reset", sg == ["return Result::map_err(SendStream::reset(&*self.0,varint_w2q(error_code)),closure:QuicSendStream::{closure#0})"], "QuicSendStream::reset changed: %s" % sg, where(f))
+    ctx.check("C06-R3", "QuicSendStream::reset", sg == ["return Result::map_err(SendStream::reset(self.0,varint_w2q(error_code)),closure:QuicSendStream::{closure#0})"], "QuicSendStream::reset changed: %s" % sg, where(f))
     f = A.fn(D + "QuicRecvStream::stop")
     sg = [path_sig(p)[1] for p in nonpanic(walk(f))]
-    ctx.check("C06-R3", "QuicRecvStream::stop", sg == ["return Result::map_err(RecvStream::stop(&*self.0,varint_w2q(error_code)),closure:QuicRecvStream::{closure#0})"], "QuicRecvStream::stop changed: %s" % sg, where(f))
+    ctx.check("C06-R3", "QuicRecvStream::stop", sg == ["return Result::map_err(RecvStream::stop(self.0,varint_w2q(error_code)),closure:QuicRecvStream::{closure#0})"], "QuicRecvStream::stop changed: %s" % sg, where(f))
     f = A.fn("wtransport::stream::SendStream::reset")
     sg = [path_sig(p)[1] for p in nonpanic(walk(f))]
-    ctx.check("C06-R3", "SendStream::reset", sg == ["return QuicSendStream::reset(&*self.0,error_code)"], "SendStream::reset changed: %s" % sg, where(f))
+    ctx.check("C06-R3", "SendStream::reset", sg == ["return QuicSendStream::reset(self.0,error_code)"], "SendStream::reset changed: %s" % sg, where(f))
     f = A.fn("wtransport::stream::RecvStream::stop")
     ev = [e for p in nonpanic(walk(f)) for e in event_strs(p)]
-    ctx.check("C06-R3", "RecvStream::stop", any(re.match(r"^QuicRecvStream::stop\(&self\.0,error_code\)$", e) for e in ev), "RecvStream::stop does not pass the code to QuicRecvStream::stop: %s" % ev, where(f))
-    for nm, inner in (("finish", "QuicSendStream::finish(&*self.0)"), ("stopped", "QuicSendStream::stopped(&*self.0)"), ("write", "QuicSendStream::write(&*self.0,&*buf)"), ("write_all", "QuicSendStream::write_all(&*self.0,&*buf)")):
+    ctx.check("C06-R3", "RecvStream::stop", any(re.match(r"^QuicRecvStream::stop\(self\.0,error_code\)$", e) for e in ev), "RecvStream::stop does not pass the code to QuicRecvStream::stop: %s" % ev, where(f))
+    for nm, inner in (("finish", "QuicSendStream::finish(self.0)"), ("stopped", "QuicSendStream::stopped(self.0)"), ("write", "QuicSendStream::write(self.0,buf)"), ("write_all", "QuicSendStream::write_all(self.0,buf)")):
         f = A.find1(r"^wtransport::stream::SendStream::%s::\{closure#0\}$" % nm)
         sg = [path_sig(p)[1] for p in nonpanic(walk(f))]
         ctx.check("C06-R3", "SendStream::%s" % nm, sg == ["return await(%s)" % inner], "SendStream::%s does not delegate unchanged: %s" % (nm, sg), where(f))
-    for nm, inner in (("read", "QuicRecvStream::read(&*self.0,&*buf)"), ("read_exact", "QuicRecvStream::read_exact(&*self.0,&*buf)")):
+    for nm, inner in (("read", "QuicRecvStream::read(self.0,buf)"), ("read_exact", "QuicRecvStream::read_exact(self.0,buf)")):
         f = A.find1(r"^wtransport::stream::RecvStream::%s::\{closure#0\}$" % nm)
         sg = [path_sig(p)[1] for p in nonpanic(walk(f))]
         ctx.check("C06-R3", "RecvStream::%s" % nm, sg == ["return await(%s)" % inner], "RecvStream::%s does not delegate unchanged: %s" % (nm, sg), where(f))
